@@ -7,6 +7,7 @@ from symx import stubs
 from harness.twin import Twin, make_scheduler
 
 SHIMS = {
+    "fifo-bo": ["syne_tune.optimizer.schedulers.searchers.model_based_searcher"],
     "median": ["syne_tune.optimizer.schedulers.median_stopping_rule"],
     "sync": ["syne_tune.optimizer.schedulers.synchronous.hyperband_bracket", "syne_tune.optimizer.schedulers.synchronous.hyperband"],
     "dehb": ["syne_tune.optimizer.schedulers.synchronous.hyperband_bracket", "syne_tune.optimizer.schedulers.synchronous.dehb",
